@@ -2,6 +2,7 @@ import KM.Model.GoLite
 import KM.Model.GoTypes
 import KM.Gen.GoAuth
 import KM.Gen.GoCheckAuth
+import KM.Gen.GoKmSigned
 /-! # C06 — the session-cookie tail of `checkAuth` as TRANSLATED from the current source (go2lean, tail block)
 
 The statements of `checkAuth` from `info, err := state.getAuthInfoFromAuthJWT(authCookie.Value)` to the end of the
@@ -340,3 +341,113 @@ theorem c06_go_check_auth_mask (ext : CheckAuthExt) (method host : List Char) (h
   (c06_go_check_auth_admits ext method host hasTLS hasChains cookies req info e h).2.1
 
 end KM.CheckAuthGo
+
+/-! ## `getUsernameIfKeymasterSigned` (cmd/keymasterd, whole function; `KM/Gen/GoKmSigned.lean`)
+
+Three nested loops over the verified chains, the deny list and the deployment's public keys.  External and arbitrary:
+the accessors of a chain, the IP-restriction test and `getKeyFingerprint`.  Proved with the Hoare rule for `forRange`
+(`forRange_ret`), not by a closed form. -/
+namespace KM.KmSignedGo
+open KM.GoTypes KM.Go
+
+variable {χ κ : Type}
+
+/-- what an identity returned by the function rests on -/
+def Trusted (ext : KmSignedExt χ κ) (chains : List χ) (denied : List (List Char)) (trusted : List κ)
+    (u : List Char) (nb : Nat) : Prop :=
+  ∃ chain ∈ chains, ext.short chain = false ∧ ext.isIPRestricted chain = false ∧
+    ∃ f lf, ext.fingerprint (ext.issuerKey chain) = (f, none) ∧ ext.fingerprint (ext.leafKey chain) = (lf, none) ∧
+      lf ∉ denied ∧ (∃ k ∈ trusted, ext.fingerprint k = (f, none)) ∧
+      u = ext.commonName chain ∧ nb = ext.notBefore chain
+
+/-- **a client certificate yields an identity only if it was signed directly by one of the deployment's own keys**
+(C06; the keys are those of C04/C09), on the translated source: a non-empty user name without an error comes back only
+for a verified chain of at least two certificates whose leaf is NOT an IP-restricted certificate (those are judged by
+`getUsernameIfIPRestricted`), whose issuer's key has the fingerprint of one of `state.KeymasterPublicKeys`, and whose
+own key is not on the deny list; the name is that leaf's common name and the time its not-before. -/
+theorem c06_go_km_signed (ext : KmSignedExt χ κ) (chains : List χ) (denied : List (List Char)) (trusted : List κ)
+    (u : List Char) (nb : Nat)
+    (h : KM.Gen.GoKmSigned.getUsernameIfKeymasterSigned ext chains denied trusted = (u, nb, none)) (hu : u ≠ []) :
+    Trusted ext chains denied trusted u nb := by
+  obtain ⟨short, cn, ik, lk, nbf, ipr, fpr⟩ := ext
+  unfold KM.Gen.GoKmSigned.getUsernameIfKeymasterSigned at h
+  dsimp only at h
+  let Post : List Char × Nat × Option Err → Prop := fun r =>
+    r.2.2 = none → r.1 ≠ [] → Trusted ⟨short, cn, ik, lk, nbf, ipr, fpr⟩ chains denied trusted r.1 r.2.1
+  suffices hP : Post (u, nb, none) from hP rfl hu
+  revert h
+  generalize hb : (fun chain (st : Unit) => _) = body
+  cases hl : forRange chains () body with
+  | done s => intro h; cases s; cases h; exact fun _ h => absurd rfl h
+  | ret r =>
+    intro h
+    simp only at h
+    subst h
+    refine forRange_ret hl (fun _ => True) Post trivial ?_
+    intro chain hc s _
+    subst hb
+    cases s
+    dsimp only
+    by_cases hs : short chain = true
+    · simp only [hs, if_true, Ctl.post]
+    · have hs' : short chain = false := by simpa using hs
+      simp only [hs', Bool.false_eq_true, if_false]
+      by_cases hi : ipr chain = true
+      · simp only [hi, if_true, Ctl.post]
+      · have hi' : ipr chain = false := by simpa using hi
+        simp only [hi', Bool.false_eq_true, if_false]
+        by_cases he1 : (fpr (ik chain)).2.isSome = true
+        · simp only [he1, if_true, Ctl.post]
+          intro hn; rw [hn] at he1; cases he1
+        · simp only [he1, if_false]
+          have hf1 : fpr (ik chain) = ((fpr (ik chain)).1, none) := by
+            cases h : (fpr (ik chain)).2 with
+            | none => exact Prod.ext rfl h
+            | some e => rw [h] at he1; simp at he1
+          by_cases he2 : (fpr (lk chain)).2.isSome = true
+          · simp only [he2, if_true, Ctl.post]
+            intro hn; rw [hn] at he2; cases he2
+          · simp only [he2, if_false]
+            have hf2 : fpr (lk chain) = ((fpr (lk chain)).1, none) := by
+              cases h : (fpr (lk chain)).2 with
+              | none => exact Prod.ext rfl h
+              | some e => rw [h] at he2; simp at he2
+            rw [forRange_findRet (fun r => (fpr (lk chain)).1 == r)
+              (fun _ => (([] : List Char), (0 : Nat), (some "revoked key with FP:%s".toList : Option Err)))
+              _ (by intro x s; cases s; rfl)]
+            cases hd : denied.find? (fun r => (fpr (lk chain)).1 == r) with
+            | some r => simp only [Ctl.post]; intro hn; cases hn
+            | none =>
+              have hnd : (fpr (lk chain)).1 ∉ denied := by
+                intro hm
+                have := List.find?_eq_none.mp hd _ hm
+                simp at this
+              simp only
+              generalize hb2 : (fun key (st : Unit) => _) = body2
+              cases hl2 : forRange trusted () body2 with
+              | done s => cases s; simp only [Ctl.post]; trivial
+              | ret r =>
+                simp only [Ctl.post]
+                refine forRange_ret hl2 (fun _ => True) Post trivial ?_
+                intro key hk s _
+                subst hb2
+                cases s
+                dsimp only
+                by_cases he3 : (fpr key).2.isSome = true
+                · simp only [he3, if_true, Ctl.post]
+                  intro hn; rw [hn] at he3; cases he3
+                · simp only [he3, if_false]
+                  have hf3 : fpr key = ((fpr key).1, none) := by
+                    cases h : (fpr key).2 with
+                    | none => exact Prod.ext rfl h
+                    | some e => rw [h] at he3; simp at he3
+                  by_cases hm : ((fpr (ik chain)).1 == (fpr key).1) = true
+                  · simp only [hm, if_true, Ctl.post]
+                    intro _ _
+                    refine ⟨chain, hc, hs', hi', (fpr (ik chain)).1, (fpr (lk chain)).1, hf1, hf2, hnd,
+                      ⟨key, hk, ?_⟩, rfl, rfl⟩
+                    have : (fpr (ik chain)).1 = (fpr key).1 := by simpa using hm
+                    rw [this]; exact hf3
+                  · simp only [hm, Ctl.post]; trivial
+
+end KM.KmSignedGo
